@@ -125,24 +125,43 @@ theorem same_text_in_one_box_breaks :
     lineWidths (inlinePara 75 [.box 0 0 false [.text "rr anin".toList], .text "sss".toList]) = some [20, 70] := by
   decide +kernel
 
-/-- finding `preserved-line-break-flag-stale-after-rebreak`: `white-space: pre-line`, 120px,
-`text-align-last: right`, `uuuu wwwww<span>rrrrr\nx</span> jjj`.  The span's text ends the line at a
-preserved line break (`preserved_line_break = True`), but it overflows and `_break_waiting_children`
-re-breaks the waiting text after `uuuu `: the first line `uuuu` is returned with the stale flag and is
-aligned as a last line (x = 80) although no forced break follows it … -/
-theorem shortened_line_aligned_as_last :
+/-- regression of the repaired finding `preserved-line-break-flag-stale-after-rebreak` (fix 889a2ec):
+`white-space: pre-line`, 120px, `text-align-last: right`, `uuuu wwwww<span>rrrrr\nx</span> jjj`.  The
+span's text ends at a preserved line break, but it overflows and `_break_waiting_children` re-breaks the
+waiting text after `uuuu `: the first line `uuuu` used to be returned with the stale flag and aligned
+as a last line (x = 80); it is now at the start edge, the line `wwwwwrrrrr` that really ends at the
+forced break and the last line stay right-aligned … -/
+theorem shortened_line_not_aligned_as_last :
     (IR.paragraph { inlinePara 120 [.text "uuuu wwwww".toList, .box 0 0 false [.text "rrrrr\nx".toList], .text " jjj".toList] with
         st := { ws := .preLine, wb := .normal, ow := .normal, fs := 10 },
         align := { alignAll := .start, alignLast := some .right, ws := .preLine, rtl := false } }).toOption.map
-      (fun ls => ls.map (fun l => (l.x, l.w))) = some [(80, 40), (20, 100), (70, 50)] := by
+      (fun ls => ls.map (fun l => (l.x, l.w))) = some [(0, 40), (20, 100), (70, 50)] := by
   decide +kernel
 
-/-- … while without the preserved line break in the span the same first line is at the start edge. -/
+/-- … like the same first line without the preserved line break in the span. -/
 theorem shortened_line_without_newline_at_start :
     (IR.paragraph { inlinePara 120 [.text "uuuu wwwww".toList, .box 0 0 false [.text "rrrrr x".toList], .text " jjj".toList] with
         st := { ws := .preLine, wb := .normal, ow := .normal, fs := 10 },
         align := { alignAll := .start, alignLast := some .right, ws := .preLine, rtl := false } }).toOption.map
       (fun ls => ls.map (fun l => (l.x, l.w))) = some [(0, 40), (0, 120), (90, 30)] := by
+  decide +kernel
+
+/-- finding `nowrap-breaks-after-collapsed-space`: `white-space: nowrap`, 50px, `aaa <b> </b>bbb`.  The
+space of `<b>` collapses with the one before it; the emptied `<b>` carries
+`trailing_collapsible_space`, so `last_letter is True` when `bbb` comes and the
+`elif box.style['white_space'] in ('pre', 'nowrap')` is not consulted: a break opportunity is recorded
+and, `bbb` overflowing, the line is broken — under `nowrap` … -/
+theorem nowrap_breaks_after_collapsed_space :
+    lineWidths { inlinePara 50 [.text "aaa ".toList, .flagged (.box 0 0 false []), .text "bbb".toList] with
+      st := { ws := .nowrap, wb := .normal, ow := .normal, fs := 10 },
+      align := { alignAll := .start, alignLast := none, ws := .nowrap, rtl := false } } = some [40, 30] := by
+  decide +kernel
+
+/-- … while `aaa <b>x</b>bbb` stays on one overflowing line. -/
+theorem nowrap_keeps_one_line_without_collapsed_space :
+    lineWidths { inlinePara 50 [.text "aaa ".toList, .box 0 0 false [.text "x".toList], .text "bbb".toList] with
+      st := { ws := .nowrap, wb := .normal, ow := .normal, fs := 10 },
+      align := { alignAll := .start, alignLast := none, ws := .nowrap, rtl := false } } = some [80] := by
   decide +kernel
 
 /-! ### vertical placement (`Model/LineVertical`) -/
